@@ -54,6 +54,39 @@ Theorem C03_no_saturation_exact : forall (base S : tensor R) a j,
 Proof. rewrite tie_absmax_optimize. exact absmax_no_saturation_R. Qed.
 Print Assumptions C03_no_saturation_exact.
 
+(* IEEE arithmetic (Flocq; float32 / float16 / bfloat16), qint8: the scale of a cell is the float quotient
+   s = A / 127 of the cell's largest magnitude A (C03_one_scale_per_cell).  When the quotient is in the normal range
+   and the grid is representable:  |s - A/127| <= u*A/127  (full range, not larger than absmax/qmax beyond one
+   rounding), and EVERY finite element with |x| <= A - every member of the cell - is dequantized within
+   half a step + 254*u*s (the amount by which A/s can exceed 127) + the rounding slack of C01: no element
+   saturates by more than rounding. *)
+From Flocq Require Import Core IEEE754.BinarySingleNaN.
+From QV Require Import Float.F Proofs.FloatFacts Proofs.C01Float Proofs.ScaleFloat.
+Open Scope Z_scope.
+Definition C03_float_statement (prec emax : Z) (NF : Num (binary_float prec emax)) : Prop :=
+  forall A x : binary_float prec emax,
+  is_finite A = true -> is_finite x = true -> (0 < B2R A)%R -> (Rabs (B2R x) <= B2R A)%R ->
+  (bpow radix2 (3 - emax - prec + prec - 1) <= B2R A / 127)%R ->
+  let s := @n_div _ NF A (@n_of_Z _ NF 127) in
+  (128 * B2R s <= Fmax prec emax)%R ->
+  is_finite s = true /\ (0 < B2R s)%R /\
+  (Rabs (B2R s - B2R A / 127) <= uro prec * (B2R A / 127))%R /\
+  exists k : Z, -128 <= k <= 127 /\ B2R (@symq _ NF qint8 x s) = IZR k /\
+    is_finite (@symdq _ NF qint8 x s) = true /\
+    (Rabs (B2R (@symdq _ NF qint8 x s) - B2R x) <=
+       B2R s / 2 + 254 * uro prec * B2R s
+       + (2 * (uro prec * Rabs (B2R x) + B2R s * eta prec emax) + (uro prec * Rabs (B2R s * IZR k) + eta prec emax)))%R.
+
+Theorem C03_no_saturation_float32 : C03_float_statement 24 128 Num32.
+Proof. exact (absmax_no_saturation_float 24 128 Hp24 Hpe24 ltac:(lia) ltac:(lia)). Qed.
+Print Assumptions C03_no_saturation_float32.
+Theorem C03_no_saturation_float16 : C03_float_statement 11 16 Num16.
+Proof. exact (absmax_no_saturation_float 11 16 Hp11 Hpe11 ltac:(lia) ltac:(lia)). Qed.
+Print Assumptions C03_no_saturation_float16.
+Theorem C03_no_saturation_bfloat16 : C03_float_statement 8 128 NumB16.
+Proof. exact (absmax_no_saturation_float 8 128 Hp8 Hpe8 ltac:(lia) ltac:(lia)). Qed.
+Print Assumptions C03_no_saturation_bfloat16.
+
 (* non-vacuity: a 2x3 tensor, axis 0 -> two cells whose members are the two rows *)
 Example C03_cells_example :
   members [2; 3] (eff_dims [2; 3] (zrange2 1 2)) 0 = [0; 1; 2] /\
